@@ -391,6 +391,14 @@ func (m *Machine) floatBinop(op token.Token, x, y value) value {
 		}
 		panic(engineFault{fmt.Sprintf("float binop %s", op)})
 	}
+	// IEEE identities that are exact for every operand (NaN, infinities and
+	// signed zeros included): x*1 = 1*x = x and x/1 = x
+	if xf, xc := concFloat(x); xc && xf == 1 && op == token.MUL {
+		return y
+	}
+	if yf, yc := concFloat(y); yc && yf == 1 && (op == token.MUL || op == token.QUO) {
+		return x
+	}
 	if op == token.MUL && m.h.Params["abstractMul"] == 1 {
 		if r, ok := m.abstractConstMul(x, y, bits); ok {
 			return r
